@@ -3,7 +3,9 @@ package c16
 import (
 	"encoding/json"
 	"fmt"
+	"strconv"
 	"strings"
+	"unicode/utf16"
 
 	jlib "github.com/jsightapi/jsight-schema-go-library"
 	"github.com/jsightapi/jsight-schema-go-library/notations/jschema"
@@ -76,7 +78,40 @@ func convNode(n jlib.ASTNode) XNode {
 
 func toJSON(v interface{}) string {
 	b, _ := json.Marshal(v)
-	return string(b)
+	return lineSafe(string(b))
+}
+
+// lineSafe: the REPORT is ONE line that ./check cuts out of the output with Python's str.splitlines(), which also
+// breaks a line at U+0085 (NEL) — a character encoding/json leaves raw (it escapes only < 0x20, U+2028, U+2029) and
+// that notes / strings of the generator contain (V11b). Every text handed to the report (Impl / Model trees, case
+// keys → samples, Notes) therefore goes through lineSafe: every rune that is not printable ASCII-or-graphic
+// (strconv.IsPrint false: NEL, NBSP-like spaces, zero-width characters, BOM, …) is written as \uXXXX, which is
+// valid inside the JSON strings of a tree and readable in a sample. Without it a run whose FIRST diffs (or samples)
+// held a NEL made ./check die on the REPORT line and the diffs were never reported.
+func lineSafe(s string) string {
+	ok := true
+	for _, r := range s {
+		if r >= 0x7f && !strconv.IsPrint(r) {
+			ok = false
+			break
+		}
+	}
+	if ok {
+		return s
+	}
+	var sb strings.Builder
+	for _, r := range s {
+		switch {
+		case r < 0x7f || strconv.IsPrint(r):
+			sb.WriteRune(r)
+		case r > 0xffff:
+			r1, r2 := utf16.EncodeRune(r)
+			fmt.Fprintf(&sb, "\\u%04x\\u%04x", r1, r2)
+		default:
+			fmt.Fprintf(&sb, "\\u%04x", r)
+		}
+	}
+	return sb.String()
 }
 
 // Case: one replayable input.
